@@ -40,7 +40,17 @@ type Assoc struct {
 	out     []OutRec
 	closeCh chan struct{}
 	NoInfo  bool // deliver reads without SndRcvInfo (socket not subscribed to data io events)
+	// FailWrite, if set, is asked before every write (k = 1, 2, ...): true = the write fails with a
+	// temporary error and nothing is accepted
+	FailWrite func(k int) bool
+	nwrite    int
 }
+
+type tempErr struct{}
+
+func (tempErr) Error() string   { return "sctpmem: scripted temporary write error" }
+func (tempErr) Timeout() bool   { return false }
+func (tempErr) Temporary() bool { return true }
 
 func New() *Assoc {
 	a := &Assoc{closeCh: make(chan struct{})}
@@ -101,6 +111,10 @@ func (a *Assoc) SCTPWrite(b []byte, info *sctp.SndRcvInfo) (int, error) {
 	defer a.mu.Unlock()
 	if a.closed {
 		return 0, io.ErrClosedPipe
+	}
+	a.nwrite++
+	if a.FailWrite != nil && a.FailWrite(a.nwrite) {
+		return 0, tempErr{}
 	}
 	var s uint16
 	if info != nil {
